@@ -3,33 +3,31 @@ import Gomjml.Core.LayoutSpec
 namespace Gomjml.Props.C03
 open Gomjml.Layout Gomjml.Spec
 
-/-- **C03 on the tame fragment, for every tree**: what Outlook sees (conditional content spliced in) is strictly nested —
-    every table, row, cell and VML shape opened inside a conditional is closed by a later conditional at the same depth. -/
-theorem C03_partial (bs : List Block) (h : Tame bs false) : MsoWF ((render bs).map Tok.toG) :=
-  (wf_spec _ (C02_C03_tame bs h)).2.1
+/-- **C03, the full statement: for EVERY document of the layout grammar** — any sequence of sections (full-width, background
+    image, chaining or not), wrappers of every configuration (full-width and background-image sections inside them, delegated
+    backgrounds, raw content between them, only blank raws), heroes and raw content: what Outlook sees (conditional content
+    spliced in) is strictly nested — every table, row, cell and VML shape opened inside a conditional is closed by a later
+    conditional at the same depth, none is closed twice.  No side condition. -/
+theorem C03_full (bs : List Block) : MsoWF ((render bs).map Tok.toG) :=
+  (wf_spec _ (C02_C03_all bs)).2.1
 
-/-- **C03 for every body whose wrappers are tame** -/
-theorem C03_all_bodies (bs : List Block) (hw : WrappersTame bs) : MsoWF ((render bs).map Tok.toG) :=
-  (wf_spec _ (C02_C03_all bs hw)).2.1
+/-- the wrapper's children loop, whatever the children: it leaves on Outlook's stack exactly the depth it reports, which is
+    what the wrapper then closes (`RenderMSOWrapperClose`) -/
+theorem C03_wrapper_hand_over (w : Wrapper) : Neutral w.mid := mid_neutral w
 
-/-- non-vacuity: a wrapper with a coloured section, a raw and a right-aligned single column; a background-image section -/
-example : Tame [.wrapper ⟨false, true, [.sec ⟨false, false, false, false, true, false, [.col ⟨false, [.text]⟩]⟩, .raw false,
-                                        .sec ⟨false, false, true, false, false, false, [.col ⟨false, [.text]⟩]⟩]⟩,
-                .section ⟨false, true, false, false, false, false, [.col ⟨true, [.text, .raw]⟩, .col ⟨false, []⟩]⟩] false := by
-  simp [Tame, Wrapper.tame, secsOf, Section.emit, emitToks, secLeave, nextConsumes]
-
-/-- **the full statement is false of the code**: the wrapper ↔ section Outlook hand-over is unbalanced for
-    a wrapper whose only child is a blank raw … -/
-example : ¬ MsoWF ((render [.wrapper ⟨false, false, [.raw true]⟩]).map Tok.toG) := by unfold MsoWF; decide
+/-- non-vacuity: the shapes that were unbalanced before the wrapper kept track of the open depth — a wrapper whose only child
+    is a blank raw … -/
+example : MsoWF ((render [.wrapper ⟨false, false, [.raw true]⟩]).map Tok.toG) := by unfold MsoWF; decide
 /-- … a full-width section with a background colour inside a wrapper … -/
-example : ¬ MsoWF ((render [.wrapper ⟨false, false, [.sec ⟨true, false, false, false, true, false, []⟩]⟩]).map Tok.toG) := by
+example : MsoWF ((render [.wrapper ⟨false, false, [.sec ⟨true, false, false, false, true, false, []⟩]⟩]).map Tok.toG) := by
   unfold MsoWF; decide
 /-- … a full-width section inside a coloured wrapper … -/
-example : ¬ MsoWF ((render [.wrapper ⟨false, true, [.sec ⟨true, false, false, false, false, false, []⟩]⟩]).map Tok.toG) := by
+example : MsoWF ((render [.wrapper ⟨false, true, [.sec ⟨true, false, false, false, false, false, []⟩]⟩]).map Tok.toG) := by
   unfold MsoWF; decide
-/-- … and mixes of consumer and non-consumer sections -/
-example : ¬ MsoWF ((render [.wrapper ⟨false, false, [.sec ⟨false, false, false, false, false, false, []⟩,
-                                                     .sec ⟨true, true, false, false, false, false, []⟩]⟩]).map Tok.toG) := by
+/-- … mixes of sections that bring their own Outlook table with sections that do not, raw content between them -/
+example : MsoWF ((render [.wrapper ⟨false, false, [.sec ⟨false, false, false, false, false, false, []⟩, .raw false,
+                                                   .sec ⟨true, true, false, false, false, false, []⟩, .raw true,
+                                                   .sec ⟨true, false, false, false, true, false, [.col ⟨false, [.text]⟩]⟩]⟩]).map Tok.toG) := by
   unfold MsoWF; decide
 
 end Gomjml.Props.C03
